@@ -1,27 +1,27 @@
 #!/bin/sh
 # Maintenance helper: confirm a sub-agent's seeded change in its scratch worktree and copy it to /verif/seeded/<name>/.
-# usage: tools_confirmseed.sh <property> <worktree> <name>
-prop="$1"; wt="$2"; name="$3"
+# usage: tools_confirmseed.sh <property> <worktree> <name> [subdir of _seed]
+prop="$1"; wt="$2"; name="$3"; sub="${4:-.}"
 export GOFLAGS=-mod=mod GOPROXY=off GOSUMDB=off GOTOOLCHAIN=local
 cd "$wt" || exit 2
 git checkout -q -- . 2>/dev/null
 log=$(mktemp)
 r_apply=fail; r_demo_with=?; r_tests=?; r_demo_without=?
-if git apply --check _seed/patch.diff 2>>$log; then
-  git apply _seed/patch.diff; r_apply=ok
+if git apply --check _seed/$sub/patch.diff 2>>$log; then
+  git apply _seed/$sub/patch.diff; r_apply=ok
   if go build ./... >>$log 2>&1; then
-    (cd _seed && timeout 300 bash ./demo.sh) >>$log 2>&1; r_demo_with=$?
+    (cd _seed/$sub && timeout 300 bash ./demo.sh) >>$log 2>&1; r_demo_with=$?
     if go test -vet=off -count=1 ./... >>$log 2>&1; then r_tests=pass; else r_tests=FAIL; fi
   else r_tests=BUILDFAIL; fi
   git checkout -q -- .
-  (cd _seed && timeout 300 bash ./demo.sh) >>$log 2>&1; r_demo_without=$?
+  (cd _seed/$sub && timeout 300 bash ./demo.sh) >>$log 2>&1; r_demo_without=$?
 fi
 echo "$name: apply=$r_apply demo_with_change_exit=$r_demo_with tests_with_change=$r_tests demo_without_change_exit=$r_demo_without"
 if [ "$r_apply" = ok ] && [ "$r_demo_with" != 0 ] && [ "$r_tests" = pass ] && [ "$r_demo_without" = 0 ]; then
   d=/verif/seeded/$name; rm -rf $d; mkdir -p $d/demo
-  cp _seed/patch.diff $d/patch.diff
+  cp _seed/$sub/patch.diff $d/patch.diff
   # demonstration files (no binaries / build output)
-  (cd _seed && find . -type f ! -name tsh ! -name '*.log' ! -name patch.diff -size -200k ! -path './out/*' ! -path './bin/tsh' | while read f; do mkdir -p "$d/demo/$(dirname $f)"; cp "$f" "$d/demo/$f"; done)
+  (cd _seed/$sub && find . -type f ! -name tsh ! -name '*.log' ! -name patch.diff -size -200k ! -path './out/*' ! -path './bin/tsh' | while read f; do mkdir -p "$d/demo/$(dirname $f)"; cp "$f" "$d/demo/$f"; done)
   cat > $d/meta.json <<META
 {"property": "$prop", "name": "$name", "origin": "independent sub-agent given only the property text and a scratch worktree",
  "confirmed": {"patch_applies": true, "builds": true, "demo_exit_with_change": $r_demo_with, "existing_tests_with_change": "pass (165)", "demo_exit_without_change": 0},
